@@ -116,6 +116,10 @@ def lhs_name(stmt):
     return m.group(1)
 
 
+# a backticked fragment or an index bracket that contains the statement's `=`
+_STRADDLE = re.compile(r'`[^`\n]*=[^`\n]*`|\[[^\]\n]*=[^\]\n]*\]')
+
+
 def classify_internal(e, script=''):
     """Key for an exception that is not one of the parser's own errors.  The keys of the known defects are
     predicates over the exception class and the INPUT (not over fsic's function names or source lines), so that a
@@ -125,8 +129,14 @@ def classify_internal(e, script=''):
         return 'exec-at-parse-raises'
     inner = [f for f in tb if f.filename.endswith('parser.py')]
     fn = inner[-1].name if inner else '?'
+    if inner and (inner[-1].line or '').lstrip().startswith('raise'):
+        # raised on purpose by the parser with a foreign class: never one of the known defects (those are
+        # exceptions escaping from str.format / tuple unpacking)
+        return f'internal-error:{type(e).__name__}@{fn}'
     if isinstance(e, (ValueError, IndexError, KeyError, AttributeError, TypeError)) and ('{' in script or '}' in script):
         return 'stray-brace-format-error'
+    if isinstance(e, (IndexError, ValueError, KeyError)) and _STRADDLE.search(script):
+        return 'match-straddles-equals-format-error'
     if isinstance(e, ValueError):
         stmts, _, _ = logical_statements(script)
         if any('=' not in text for kind, text in stmts if kind == 'equation'):
